@@ -12,7 +12,7 @@ pub static C12: P = P;
 
 pub const ATOMS: [&str; 16] = ["", "ab", "ab cd", "  ab", "ab  ", "a\tb", "\tab", "ab\t", "中a 中", "abcdefgh", "a   b", " ", "abcdefg\tx", "中中中中中abcd", "abcdefg hi j kl", "ab cd ef gh"];
 const CTXS: [(&str, &str, &str, usize); 3] = [("top", "<pre>", "</pre>", 0), ("li", "<ul><li><pre>", "</pre></li></ul>", 2), ("quote", "<blockquote><pre>", "</pre></blockquote>", 2)];
-const VARIANTS: [&str; 6] = ["text", "first word of each line in <b>", "lines separated by <br>", "lines separated by newline + <br> (a blank line between)", "lines separated by <br> + newline", "tail of each word in <i> (tag boundary inside the word)"];
+const VARIANTS: [&str; 7] = ["text", "first word of each line in <b>", "lines separated by <br>", "lines separated by newline + <br> (a blank line between)", "lines separated by <br> + newline", "tail of each word in <i> (tag boundary inside the word)", "every white-space run and every line break in a <span> of its own"];
 
 pub fn expand(l: &str) -> String {
     let mut out = String::new();
@@ -81,6 +81,23 @@ fn build_html(c: &Case) -> String {
                 }
                 flush(&mut word, &mut out);
                 out
+            } else if c.variant == 6 {
+                let mut out = String::new();
+                let mut in_ws = false;
+                for ch in l.chars() {
+                    let ws = ch == ' ' || ch == '\t';
+                    if ws && !in_ws {
+                        out.push_str("<span>");
+                    } else if !ws && in_ws {
+                        out.push_str("</span>");
+                    }
+                    in_ws = ws;
+                    out.push(ch);
+                }
+                if in_ws {
+                    out.push_str("</span>");
+                }
+                out
             } else {
                 l.clone()
             }
@@ -90,6 +107,7 @@ fn build_html(c: &Case) -> String {
         2 => lines.join("<br>"),
         3 => lines.join("\n<br>"),
         4 => lines.join("<br>\n"),
+        6 => lines.join("<span>\n</span>"),
         _ => lines.join("\n"),
     };
     format!("{open}{body}{close}")
@@ -291,7 +309,7 @@ fn check(c: &Case, cx: &mut Cx) {
         }
         src.push(l.clone());
     }
-    if !matches!(c.variant, 2 | 4) && src.len() > 1 && src[0].is_empty() {
+    if !matches!(c.variant, 2 | 4 | 6) && src.len() > 1 && src[0].is_empty() {
         src.remove(0);
     }
     let exp: Vec<String> = src.iter().map(|l| expand(l)).collect();
@@ -452,7 +470,7 @@ impl Scope for S {
         let idx = decode(code, &vec![ATOMS.len(); k]);
         let lines: Vec<String> = idx.iter().map(|&i| ATOMS[i].to_string()).collect();
         let maxw = self.tier.pick(18, if k <= 2 { 60 } else if k == 3 { 30 } else { 18 });
-        let nvar = self.tier.pick(if k <= 2 { 6 } else { 2 }, 6);
+        let nvar = self.tier.pick(if k <= 2 { VARIANTS.len() } else { 2 }, VARIANTS.len());
         for ctx in 0..CTXS.len() {
             for variant in 0..nvar {
                 for width in 1..=maxw {
